@@ -131,6 +131,11 @@ func Fixtures() map[string]fixture {
 			"manifest.lock.yaml": []byte(lockYAML),
 			"a.yaml":             []byte(cmDoc("cm1", "p1", "v1")),
 		}},
+		// the rendered objects depend on the environment of the Package's namespace (HyperShift hosted cluster)
+		"img/hosted:v1": {"valid", packages.Files{
+			"manifest.yaml": []byte(manifestYAML("app", "  config:\n    openAPIV3Schema:\n      type: object\n      properties:\n        x:\n          type: string\n")),
+			"a.yaml.gotmpl": []byte("apiVersion: v1\nkind: ConfigMap\nmetadata:\n  name: cm1\n  annotations:\n    package-operator.run/phase: p1\ndata:\n  x: {{ if hasKey .config \"x\" }}{{ .config.x | quote }}{{ else }}\"-\"{{ end }}\n" + tmplEnvLine),
+		}},
 		"img/broken:v1": {"pullError", nil},
 		// a multi-component package: spec.component selects what is deployed ("" = the root)
 		"img/multi:v1": {"valid", packages.Files{
@@ -284,7 +289,7 @@ func (w *World) expectedTemplate(pkgKey Key) ([][]string, bool) {
 	if !ok || w.classWithConfig(p.Spec.Image, fx.Class, m) != "valid" {
 		return nil, false
 	}
-	spec, ok := renderPackageSpec(&p, fx)
+	spec, ok := renderPackageSpecEnv(&p, fx, w.referenceEnvironment(p.Namespace))
 	if !ok {
 		return nil, false
 	}
@@ -292,7 +297,7 @@ func (w *World) expectedTemplate(pkgKey Key) ([][]string, bool) {
 	for _, ph := range spec.Phases {
 		row := []string{ph.Name}
 		for _, o := range ph.Objects {
-			row = append(row, objKeyOf(o.Object.Object, NS)+"#"+shortHash(o.Object.Object))
+			row = append(row, objKeyOf(o.Object.Object, pkgKey.NS)+"#"+shortHash(o.Object.Object))
 		}
 		out = append(out, row)
 	}
@@ -301,6 +306,10 @@ func (w *World) expectedTemplate(pkgKey Key) ([][]string, bool) {
 
 // renderPackageSpec is the reference render: the package pipeline called directly on a Package spec.
 func renderPackageSpec(p *corev1alpha1.Package, fx fixture) (*corev1alpha1.ObjectSetTemplateSpec, bool) {
+	return renderPackageSpecEnv(p, fx, manifests.PackageEnvironment{Kubernetes: manifests.PackageEnvironmentKubernetes{Version: "v1.28.0"}})
+}
+
+func renderPackageSpecEnv(p *corev1alpha1.Package, fx fixture, env manifests.PackageEnvironment) (*corev1alpha1.ObjectSetTemplateSpec, bool) {
 	ctx := context.Background()
 	pkg, err := packages.DefaultStructuralLoader.LoadComponent(ctx, (&packages.RawPackage{Files: fx.Files}).DeepCopy(), p.Spec.Component)
 	if err != nil {
@@ -323,7 +332,7 @@ func renderPackageSpec(p *corev1alpha1.Package, fx fixture) (*corev1alpha1.Objec
 		Package:     manifests.TemplateContextPackage{TemplateContextObjectMeta: manifests.TemplateContextObjectMeta{Name: p.Name, Namespace: p.Namespace}},
 		Config:      cfg,
 		Images:      map[string]string{},
-		Environment: manifests.PackageEnvironment{Kubernetes: manifests.PackageEnvironmentKubernetes{Version: "v1.28.0"}},
+		Environment: env,
 	}
 	inst, err := packages.RenderPackageInstance(ctx, pkg, tctx, packages.DefaultPackageValidators, packages.DefaultObjectValidators)
 	if err != nil {
@@ -350,7 +359,7 @@ func (w *World) actualTemplate(odKey Key) [][]string {
 		row := []string{ph.Name}
 		objs := ph.Objects
 		for _, sl := range ph.Slices {
-			sm := w.Store.Snapshot(Key{pkoGroup, "ObjectSlice", NS, sl})
+			sm := w.Store.Snapshot(Key{pkoGroup, "ObjectSlice", odKey.NS, sl})
 			if sm == nil {
 				row = append(row, "MISSING-SLICE:"+sl)
 				continue
@@ -361,7 +370,7 @@ func (w *World) actualTemplate(odKey Key) [][]string {
 			objs = append(objs, s.Objects...)
 		}
 		for _, o := range objs {
-			row = append(row, objKeyOf(o.Object.Object, NS)+"#"+shortHash(o.Object.Object))
+			row = append(row, objKeyOf(o.Object.Object, odKey.NS)+"#"+shortHash(o.Object.Object))
 		}
 		out = append(out, row)
 	}
@@ -374,7 +383,7 @@ func (w *World) NotePackage(p *Pass) {
 		return
 	}
 	exp, valid := w.expectedTemplate(p.Target)
-	act := w.actualTemplate(Key{pkoGroup, "ObjectDeployment", NS, p.Target.Name})
+	act := w.actualTemplate(Key{pkoGroup, "ObjectDeployment", p.Target.NS, p.Target.Name})
 	w.Emit(Event{Actor: "pk", Pass: p.ID, Target: p.Target.String(), Ev: "C16Template", Key: p.Target.String(),
 		Args: map[string]any{"specValid": valid, "hasDeployment": act != nil, "matches": valid && reflect.DeepEqual(exp, act),
 			"passErr": p.Err != nil, "pulled": p.Pulled}})
@@ -408,6 +417,9 @@ func packageScenarios() []Scenario {
 			p.Spec.Component = "backend"
 			w.EnvCreate(p)
 		}},
+		// HyperShift management cluster: p1 in a plain namespace, ph (same image) in the namespace of hosted cluster "one";
+		// both are unpacked by the same controller (one environment sink); only p1's config is edited
+		hostedScenario(),
 		// created already paused: nothing may be pulled or deployed until it is unpaused
 		{Name: "pkg-paused-start", Setup: func(w *World) {
 			p := NewPackage("p1", "img/valid:v1", nil)
@@ -415,6 +427,17 @@ func packageScenarios() []Scenario {
 			w.EnvCreate(p)
 		}},
 	}
+}
+
+func hostedScenario() Scenario {
+	configPools["pkg-hosted"] = []map[string]any{nil, {"x": "1"}, {"x": "2"}}
+	return Scenario{Name: "pkg-hosted", Setup: func(w *World) {
+		w.EnableHyperShift()
+		w.EnvCreate(NewPackage("p1", "img/hosted:v1", nil))
+		ph := NewPackage("ph", "img/hosted:v1", nil)
+		ph.Namespace = HostedNS
+		w.EnvCreate(ph)
+	}}
 }
 
 // collideScenarios (C14): sliced packages whose slice contents collide in the FNV32 slice name.
@@ -442,6 +465,10 @@ func init() {
 		if a.profile == "collide" {
 			scs = collideScenarios()
 		}
+		if a.profile == "env" {
+			// the environment dimension alone, no API faults: an unchanged Package keeps its template (C13)
+			scs = []Scenario{hostedScenario()}
+		}
 		images := make([]string, 0)
 		for k := range Fixtures() {
 			images = append(images, k)
@@ -459,6 +486,9 @@ func init() {
 			sc.Setup(w)
 			faults := 3
 			conflicts := 2
+			if a.profile == "env" {
+				faults, conflicts = 0, 0
+			}
 			flight := map[string]*Pass{}
 			finish := func(p *Pass) {
 				delete(flight, p.Actor)
